@@ -223,10 +223,10 @@ func checkRelay(c *Ctx) {
 			c.Check("C19/relay/ping-fresh-seqno", rule, cl.Pos(), okSeq && node != nil && strings.HasSuffix(p.Canon(node), ".Node"), "forwarded ping does not carry a fresh sequence number / the requested node")
 		case "ackResp":
 			nAck++
-			c.Check("C19/relay/ack-requester-seqno", rule, cl.Pos(), len(cl.Elts) >= 1 && strings.HasSuffix(p.Canon(elt(cl, 0, "SeqNo")), ".SeqNo") && strings.HasPrefix(norm(p.Canon(elt(cl, 0, "SeqNo"))), "ind."), "relayed ack does not carry the requester's sequence number")
+			c.Check("C19/relay/ack-requester-seqno", rule, cl.Pos(), len(cl.Elts) >= 1 && strings.HasSuffix(p.Canon(c.traceParam(elt(cl, 0, "SeqNo"))), ".SeqNo") && strings.HasPrefix(norm(p.Canon(c.traceParam(elt(cl, 0, "SeqNo")))), "ind."), "relayed ack does not carry the requester's sequence number")
 		case "nackResp":
 			nNack++
-			c.Check("C19/relay/nack-requester-seqno", rule, cl.Pos(), len(cl.Elts) >= 1 && strings.HasPrefix(norm(p.Canon(elt(cl, 0, "SeqNo"))), "ind.") && strings.HasSuffix(p.Canon(elt(cl, 0, "SeqNo")), ".SeqNo"), "nack does not carry the requester's sequence number")
+			c.Check("C19/relay/nack-requester-seqno", rule, cl.Pos(), len(cl.Elts) >= 1 && strings.HasPrefix(norm(p.Canon(c.traceParam(elt(cl, 0, "SeqNo")))), "ind.") && strings.HasSuffix(p.Canon(c.traceParam(elt(cl, 0, "SeqNo"))), ".SeqNo"), "nack does not carry the requester's sequence number")
 		}
 		return true
 	})
@@ -266,11 +266,17 @@ func checkRelay(c *Ctx) {
 		if !ok {
 			return true
 		}
-		fl, ok := ast.Unparen(gs.Call.Fun).(*ast.FuncLit)
-		if !ok || len(fl.Body.List) != 1 {
+		// the goroutine's body: a literal, or a helper extracted from one
+		var gbody *ast.BlockStmt
+		if fl, ok := ast.Unparen(gs.Call.Fun).(*ast.FuncLit); ok {
+			gbody = fl.Body
+		} else if f := p.Callee(gs.Call); f != nil && f.Pkg() == p.Types && p.ByObj[f] != nil && !pinnedFuncs[p.ByObj[f].Name] {
+			gbody = p.ByObj[f].Decl.Body
+		}
+		if gbody == nil || len(gbody.List) != 1 {
 			return true
 		}
-		sel, ok := fl.Body.List[0].(*ast.SelectStmt)
+		sel, ok := gbody.List[0].(*ast.SelectStmt)
 		if !ok || len(sel.Body.List) != 2 {
 			return true
 		}
